@@ -14,7 +14,7 @@ import (
 // GRPCProfile is the C10 profile: services with a gRPC transport only.
 func GRPCProfile() Profile {
 	return Profile{Name: "grpc", MaxServices: 2, MaxMethods: 3, MaxFields: 5, Runtime: true,
-		Validations: true, Defaults: true, UserTypes: true, Aliases: true, Recursive: true, Maps: true, Bytes: true, GRPC: true, Unions: true}
+		Validations: true, Defaults: true, UserTypes: true, Aliases: true, Recursive: true, Maps: true, Bytes: true, GRPC: true, Unions: true, Streaming: true}
 }
 
 // GRPCDesign generates designs whose services are served over gRPC: payloads
@@ -148,6 +148,34 @@ func (g *G) grpcMethod(s *m.Service, scope map[string]bool) {
 	meth := &m.Method{Name: g.pickName([]string{"add", "list", "show", "update", "remove", "rate"}, scope, "methname"), GRPC: &m.GRPCEndpoint{}}
 	meth.Payload = g.message("payload")
 	meth.Result = g.message("result")
+	// streaming kinds: the result of a server-streaming or bidirectional method is
+	// the streamed message; the request stream of a client-streaming or
+	// bidirectional method carries the streaming payload, so the payload (when
+	// there is one) travels in the request metadata only
+	if g.p.Streaming {
+		switch rapid.IntRange(0, 5).Draw(t, "grpcstream") {
+		case 0:
+			if meth.Result != nil {
+				meth.Streaming = "result"
+			}
+		case 1, 2:
+			if sp := g.message("spayload"); sp != nil {
+				meth.StreamingPayload = sp
+				meth.Streaming = "payload"
+				if meth.Result != nil && rapid.Bool().Draw(t, "bidi") {
+					meth.Streaming = "bidirectional"
+				}
+				meth.Payload = nil
+				if rapid.Bool().Draw(t, "mdpayload") {
+					a := m.Prim(m.String)
+					meth.Payload = &m.Attr{Type: &m.Type{Kind: m.Object, Fields: []*m.Field{{Name: "session", Attr: a, Required: rapid.Bool().Draw(t, "mdreq")}}}}
+				}
+			}
+		}
+		if meth.Streaming != "" {
+			g.feat("grpc-streaming-" + meth.Streaming)
+		}
+	}
 	// request metadata: top-level primitive attributes (or arrays of primitives) of an object payload
 	pick := func(a *m.Attr, label string, max int) []m.Mapping {
 		fields := g.d.ObjectFields(a)
@@ -182,6 +210,9 @@ func (g *G) grpcMethod(s *m.Service, scope map[string]bool) {
 	}
 	if meth.Payload != nil {
 		meth.GRPC.Metadata = pick(meth.Payload, "md", 2)
+		if meth.StreamingPayload != nil {
+			meth.GRPC.Metadata = []m.Mapping{{Attr: "session"}}
+		}
 		if len(meth.GRPC.Metadata) > 0 {
 			g.feat("request-metadata")
 		}
@@ -223,6 +254,10 @@ func (g *G) grpcMethod(s *m.Service, scope map[string]bool) {
 			}
 		}
 		return out
+	}
+	if meth.Streaming != "" {
+		s.Methods = append(s.Methods, meth)
+		return
 	}
 	if meth.GRPC.Message = explicit(meth.Payload, meth.GRPC.Metadata, "req"); len(meth.GRPC.Message) > 0 {
 		g.feat("explicit-request-message")
